@@ -45,6 +45,9 @@ PROGRAMS = ["idle", "recv", "busy", "sleep", "swallow", "threads"]
 def prog_ops(rng, kind, label, actors, gwi):
     """ops of the remote body for one worker; first op announces that the body runs"""
     ops = [["send", label, f"{label}:w2i:x:started", ["none"]]]
+    if rng.random() < 0.15:
+        # the interpreter will not exit by itself once the connection is closed (non-daemon thread, atexit handler)
+        ops.insert(0, ["linger", 10000.0])
     if kind == "recv":
         ops.append(["recv", label])
     elif kind == "busy":
@@ -159,6 +162,10 @@ def gen(rng, tier):
         main.append(["sleep", rng.choice([0.01, 0.5, 7.0])])
     main.append(["terminate", T])
     main.append(["grouplen"])
+    for a in actors:
+        # a lingering interpreter is terminate()'s business only where it is a local child of a member at that time
+        if a["ops"] and a["ops"][0][0] == "linger" and (topo != "popen" or a["gw"] in pre_exited):
+            del a["ops"][0]
     return {"gateways": specs, "actors": actors, "knobs": knobs, "strategy": L.gen_strategy(rng),
             "preempt": [], "preempt_at": L.gen_preempt_at(rng, ["terminate", "exit", "safe_terminate", "termkill",
                                                                  "join_wait", "kill", "_terminate_execution", "serve"],
